@@ -36,6 +36,10 @@ def gen_session(seed, tier, weights, ncmd_range=(1, 6), initial_filter_p=0.25, m
     total = rng.randint(10, 80 if tier == 'quick' else 200)
     per = [L.gen_conn_intents(seed, c, max(2, total // nconn), rng.choice(['mixed', 'churn', 'objects']))
            for c in range(nconn)]
+    twins = nconn >= 2 and rng.random() < 0.12
+    if twins:
+        # twin connections: every connection replays connection 0's history, so all of them have equally many messages
+        per = [[[it[0], c] + list(it[2:]) if it[0] == 'act' else list(it) for it in per[0]] for c in range(nconn)]
     intents = L.interleave(rng, per, chatter_rate=rng.choice([0, 0, 0.1]))
     cfg = {'nconn': nconn, 'sides': [rng.choice(['client', 'server']) for _ in range(nconn)],
            'dialect': L.pick_dialect(rng, nconn), 'epoch_us': rng.choice([0, rng.randrange(1 << 32)]),
@@ -55,6 +59,9 @@ def gen_session(seed, tier, weights, ncmd_range=(1, 6), initial_filter_p=0.25, m
     sc['intents'] = S.insert_commands(rng, intents, cmds)
     if nconn >= 2 and rng.random() < 0.2:
         sc['intents'] = S.revisit_flavour(rng, sc['intents'], voc.conns)
+    if twins:
+        sc['intents'] = S.twin_sweep(rng, sc['intents'], voc.conns)
+        cfg['twin_connections'] = True
     if pid in ('C11', 'C12') and rng.random() < 0.15:
         sc['intents'] = S.collision_flavour(rng, sc['intents'], voc, 'list' if pid == 'C11' else rng.choice(['filter', 'breakpoint', 'filter']))
     if nconn >= 2 and pid == 'C06' and rng.random() < 0.15:
@@ -104,10 +111,14 @@ def gen_gdb_session(seed, tier, weights, pid, ncmd_range=(1, 6), initial_filter_
     for s_ in range(nslots):
         if rng.random() < 0.8:
             traffic.append(['act', s_, 'get_registry', 0, 0, rng.randrange(1 << 30), 0])
-    traffic += c15.gen_gdb_traffic(rng, seed, nslots, n, p_destroy=0.0, p_foreign_thread=0.02)
+    # (connections also come and go here: a destroyed connection stays listed and selectable, a later one at the same address
+    # is a new connection - selection, filter and listings must follow)
+    traffic += c15.gen_gdb_traffic(rng, seed, nslots, n, p_destroy=rng.choice([0.0, 0.0, 0.05, 0.12]), p_foreign_thread=0.02)
     w = W.World(seed, 0, ['client'], rig.REPO)
     slotconn = {}
     for it in traffic:
+        if it[0] == 'destroy':
+            slotconn.pop(it[1] % nslots, None)      # (vocabulary only: the simulation proper keeps its own books)
         if it[0] == 'act':
             if it[1] not in slotconn:
                 c = W.ConnState(len(w.conns), sides[it[1] % len(sides)], w)
